@@ -617,6 +617,8 @@ mod matching {
         while let Some(frame) = stack.pop() {
             match frame {
                 Frame::Unwind { nodes, open_list } => {
+                    #[cfg(feature = "verif-hooks")]
+                    crate::verif::hit(crate::verif::Site::vf2_unwind);
                     pop_state(st, nodes);
 
                     match next_from_ix(st, nodes.1, open_list) {
